@@ -36,8 +36,8 @@ func VerifHarness_C05_DatePairs() {
 
 // C05-E1 Time x Time, every precision pair.
 func VerifHarness_C05_TimePairs() {
-	a, ca := verifTime("a")
-	b, cb := verifTime("b")
+	a, ca := verifTimeSrc("a", true)
+	b, cb := verifTimeSrc("b", true)
 	cmp, defined := verifCompare("time", ca, cb)
 	verifCheckPair(a, b, cmp, defined)
 	verifrt.Reach("end")
